@@ -17,7 +17,7 @@ func seedHex(r *core.Rand) string {
 	return hex.EncodeToString(s[:])
 }
 
-var msgLens = []int{0, 1, 31, 32, 33, 64, 65, 100, 128, 129, 200, 1024}
+var msgLens = []int{0, 1, 31, 32, 33, 55, 56, 63, 64, 65, 100, 119, 120, 128, 129, 135, 136, 167, 168, 200, 1024}
 
 func genMsgLen(r *core.Rand, allowBig bool) int {
 	switch r.Intn(12) {
@@ -382,6 +382,9 @@ func NewBatch(prop, tier string, seed uint64) *Batch {
 				}
 				b.Fixed = append(b.Fixed, wholeLife(fr, stubLife[i], hf, true, viaUnitAbove))
 			}
+		}
+		if !thorough { // one real-leaf whole life at h=10 in quick (the thorough tier has all three)
+			b.Fixed = append(b.Fixed, wholeLife(fr, 10, uint8(seed%3), false, 0))
 		}
 		for i := len(realLife) - 1; i >= 0; i-- {
 			for hf := uint8(0); hf < 3; hf++ {
